@@ -161,6 +161,22 @@ EXTRA4 = {
 }
 for _pid, (_t, _n) in EXTRA4.items():
     EXTRA[_pid] = (EXTRA.get(_pid, ("", ""))[0] + _t, EXTRA.get(_pid, ("", ""))[1] + _n)
+EXTRA5 = {
+ "C02": (" Interior rows with the time grid a pandas Series.", ""),
+ "C03": (" Mass balance with the time grid a pandas Series; recovery of profiles whose boundary flux changes sign.", ""),
+ "C04": (" Stored levels with the time grid a pandas Series (each step uses its own increment, by position).", ""),
+ "C05": (" Paths that fit without the optimiser (closed forms) are held to the configured bounds.", ""),
+ "C07": (" The oil FVF a caller gets from a re-used, reassigned Fluid object.", ""),
+ "C08": (" The replay family compares pseudopressure_Hussainy with an independent composite quadrature on light and heavy gases (the quadrature routine itself is outside the encoding).", ""),
+ "C09": (" Construction through FlowPropertiesTwoPhase.from_table leaves the caller's tables alone; int64 pressure / pseudopressure columns.", ""),
+ "C13": (" dR_s/dp for a pressure given as a Python int (0-d array semantics of np.asarray(scalar) modelled).", ""),
+ "C15": (" from_table leaves the caller's PVT table, rel-perm table and reference densities alone.", ""),
+ "C17": (" Recovery after a rejected simulate call raises (nothing is returned); a shifted grid handed over as a pandas Series.", ""),
+ "C19": (" Three pressures in any order, repeats included, through every facade method (one result per pressure, in the caller's order).", ""),
+ "C20": (" plot_pseudopressure leaves the stored field alone; figures are compared with the field as it was before the call.", ""),
+}
+for _pid, (_t, _n) in EXTRA5.items():
+    EXTRA[_pid] = (EXTRA.get(_pid, ("", ""))[0] + _t, EXTRA.get(_pid, ("", ""))[1] + _n)
 for _pid, (_t, _n) in EXTRA.items():
     CHECKS[_pid]["text"] += _t
     CHECKS[_pid]["note"] += _n
